@@ -539,6 +539,8 @@ func runC04(c *Ctx, r *Report) {
 	r.Doc("R-C04.7", "the loops that take the maximum clock over the heads and build predecessors and references process every element")
 	r.Doc("R-C04.9", "clocks of entries a log holds are never written: mutating clock methods run only on fresh objects (adopted from C05: entry objects are shared between logs, so a raised clock time in one log makes another log's next append no longer dominate it)")
 	importRules(c, r, "C05", []string{"R-C05.1"}, "R-C04.9")
+	r.Doc("R-C04.10", "what a merge stores into the log it reads in the same critical section (adopted from C13: a clock id read before the lock is taken again overwrites the clock an identity change installed in between — entries then carry the previous writer's key as clock id)")
+	importRules(c, r, "C13", []string{"R-C13.12"}, "R-C04.10", 0)
 	r.Doc("R-C04.8", "the appended entry becomes the single head whatever it contains: the head-set constructor files every existing entry (adopted from C02)")
 	importRules(c, r, "C02", []string{"R-C02.11"}, "R-C04.8")
 	loopsComplete(c, r, "R-C04.7", func(fn *Fn) bool {
